@@ -8,6 +8,7 @@ Clauses per geometry (size, data width, granularity, writable, init image), from
   mem_next     mem' = (req & we & writable) ? mem[adr := merge(sel, dat_w, mem[adr])] : mem,  req = !ack & cyc & stb
                (=> written once; only selected granules; no write while the ack is out; read-only never changes)
   read_data    req & !we  =>  dat_r' = mem[adr]   (the data presented with the acknowledge is the word as last written)
+  read_data_from_reset   the same along every 3-cycle trace from reset (gives natively reproducible counterexamples)
   init_image   memory after reset = the init image
 """
 import random
@@ -18,7 +19,7 @@ from ..hdl.nir import _fit
 
 PROP = "C15"
 LEVEL = "other"
-CLAUSES = ["ack_next", "ack_reset", "mem_next", "read_data", "init_image"]
+CLAUSES = ["ack_next", "ack_reset", "mem_next", "read_data", "read_data_from_reset", "init_image"]
 PAIRS = [(8, 8), (16, 8), (16, 16), (32, 8), (32, 16), (32, 32), (64, 8), (64, 16), (64, 32), (64, 64)]
 
 
@@ -95,6 +96,19 @@ def check_config(ctx, cfg):
     ctx.prove("mem_next", mem1[idx] == spec[idx], frames=[f0, f1], mem_replay=restore_factory)
     ctx.prove("read_data", z3.Implies(z3.And(req, we == 0), f1.val(wb.dat_r) == mem0[a]), frames=[f0, f1],
               mem_replay=restore_factory)
+    # the same clause along every trace of three cycles FROM RESET (implied by the inductive clause above; kept because a
+    # counterexample here is a plain input sequence that the native replay can always reproduce, whereas a counter-model of
+    # the inductive clause may sit in a read-port register the simulator cannot be preloaded with)
+    rs = [fr]
+    for t in range(3):
+        rs.append(nl.frame(f"r{t + 1}", prev=rs[-1]))
+    conj = []
+    for t in range(3):
+        ft, fn = rs[t], rs[t + 1]
+        at = z3.BitVecVal(0, msv.aw) if adr is None else _fit(ft.inp(wb.adr), msv.aw)
+        reqt = z3.And(ft.val(wb.ack) == 0, ft.inp(wb.cyc) == 1, ft.inp(wb.stb) == 1, ft.inp(wb.we) == 0)
+        conj.append(z3.Implies(reqt, fn.val(wb.dat_r) == ft.state[msv.idx][at]))
+    ctx.prove("read_data_from_reset", z3.And(*conj), frames=rs, mem_replay=restore_factory)
     init = list(cfg["init"]) + [0] * (msv.depth - len(cfg["init"]))
     rmem = fr.state[msv.idx]
     ctx.prove("init_image", z3.And(*[rmem[z3.BitVecVal(i, msv.aw)] == z3.BitVecVal(init[i], dw) for i in range(msv.depth)]),
